@@ -102,6 +102,40 @@ Proof.
   unfold expect. rewrite <- (weight_expectation q target Hq). apply vsum_map_ext. intros xp Hin. rewrite (Hw xp Hin). reflexivity.
 Qed.
 
+(* the initial SMC population as draw_initial_samples builds it: proposal draws that fall outside the prior support S are
+   rejected and redrawn, so the particles follow q restricted to S (density q/P, P = q(S)), but their weights keep the
+   UNRESTRICTED log q.  The mean weight then has expectation (sum over S of target) / P: too large by 1/P whenever the
+   proposal leaks (finding F55) *)
+Theorem truncated_population_weight_mean {A} (q : list (A * R)) (target w : A -> R) (inS : A -> bool) :
+  let qS := filter (fun xp => inS (fst xp)) q in
+  let P := vsum (map snd qS) in
+  Forall (fun xp => snd xp <> 0) q -> P <> 0 ->
+  (forall xp, In xp q -> w (fst xp) = target (fst xp) / snd xp) ->
+  expect (map (fun xp => (fst xp, snd xp / P)) qS) w = vsum (map (fun xp => target (fst xp)) qS) / P.
+Proof.
+  intros qS P Hnz HP Hw. unfold expect. rewrite map_map. cbn [fst snd].
+  rewrite <- vsum_map_div, map_map. apply vsum_map_ext. intros [x p] Hin. cbn [fst snd].
+  unfold qS in Hin. apply filter_In in Hin as [Hin _].
+  pose proof (Hw (x, p) Hin) as E. cbn [fst snd] in E. rewrite E.
+  rewrite Forall_forall in Hnz. specialize (Hnz _ Hin). cbn in Hnz. field. split; assumption.
+Qed.
+
+Theorem truncated_population_biased :
+  exists (q : list (nat * R)) (target w : nat -> R) (inS : nat -> bool),
+    vsum (map snd q) = 1 /\ (forall xp, In xp q -> w (fst xp) = target (fst xp) / snd xp)
+    /\ (forall xp, In xp q -> inS (fst xp) = false -> target (fst xp) = 0)
+    /\ let qS := filter (fun xp => inS (fst xp)) q in
+       expect (map (fun xp => (fst xp, snd xp / vsum (map snd qS))) qS) w <> vsum (map (fun xp => target (fst xp)) q).
+Proof.
+  exists [(0%nat, 1 / 2); (1%nat, 1 / 2)], (fun x => if Nat.eqb x 0 then 1 / 4 else 0),
+         (fun x => if Nat.eqb x 0 then 1 / 2 else 0), (fun x => Nat.eqb x 0).
+  split; [unfold vsum; simpl; lra|]. split.
+  - intros xp [E|[E|[]]]; subst; simpl; lra.
+  - split.
+    + intros xp [E|[E|[]]]; subst; simpl; intros; try discriminate; reflexivity.
+    + unfold expect, vsum. simpl. lra.
+Qed.
+
 Lemma last_indep' {A} (l : list A) d1 d2 : l <> [] -> last l d1 = last l d2.
 Proof.
   induction l as [|x l IH]; [congruence|]. intros _. destruct l as [|y l]; [reflexivity|].
